@@ -376,8 +376,8 @@ def cresult(obs_dec):
 
 class Decode(Family):
     name = "decode"
-    prelude = ("From TskVerif Require Import Base.Common C03.Model C03.Spec C03.PyViews C03.MutParents.\n"
-               "Open Scope Z_scope.")
+    prelude = ("From TskVerif Require Import Base.Common C03.Model C03.Spec C03.PyViews C03.MutParents\n"
+               "  C03.SampleListProofs.\nRequire Import Coq.QArith.QArith.\nOpen Scope Z_scope.")
     workers = 8
     shard = 150
 
@@ -494,6 +494,16 @@ class Decode(Family):
                 d["freq_rm_ok"] = (None not in fr2) and all(
                     (tot2 > 0 and fr2[k] == c / tot2) or (tot2 == 0 and fr2[k] != fr2[k])
                     for k, c in v.counts().items() if k is not None)
+                # the floats as exact small fractions (None = nan), for the model over Q
+
+                def frac(f, den):
+                    from fractions import Fraction
+                    if f != f:
+                        return None
+                    q = Fraction(float(f)).limit_denominator(max(den, 1))
+                    return [q.numerator, q.denominator] if float(q) == float(f) else "inexact"
+                d["freqs"] = [[k, frac(f, tot)] for k, f in fr.items()]
+                d["freqs_rm"] = [[k, frac(f, tot)] for k, f in fr2.items()]
             except Exception as e:
                 d["counts"] = {"exc": type(e).__name__, "msg": str(e)[:80]}
             obs["decodes"].append(d)
@@ -511,6 +521,7 @@ class Decode(Family):
                 obs["copy_decode"] = "no error"
             except Exception as e:
                 obs["copy_decode"] = type(e).__name__
+                obs["copy_decode_code"] = exc_obs(e)["code"]
         return obs
 
     # ---- oracle ---------------------------------------------------------------------
@@ -688,6 +699,30 @@ class Decode(Family):
                 else:
                     terms.append("false (* states() raised %s *)" % d["states"]["exc"])
                 terms.append("(num_alleles_model %s =? %s) && (num_missing_model %s =? %s)" % (r, cz(d["num_alleles"]), r, cz(d["num_missing"])))
+            if "err" not in d and isinstance(d.get("freqs"), list):
+                def cfreqs(items):
+                    out = []
+                    for k, q in items:
+                        key = "None" if k is None else "Some %s" % cbytes_of(k)
+                        if q is None:
+                            val = "None"
+                        elif q == "inexact":
+                            return None
+                        else:
+                            val = "(Some (%s # %d)%%Q)" % (cz(q[0]), q[1])
+                        out.append("(%s, %s)" % (key, val))
+                    return "[" + "; ".join(out) + "]"
+                for rm, key in ((False, "freqs"), (True, "freqs_rm")):
+                    cf = cfreqs(d[key])
+                    r0 = cresult(d)[4:-1]
+                    terms.append("false (* frequencies() is not count/total *)" if cf is None else
+                                 "freqs_eqb (frequencies_model %s %s) %s" % (cbool(rm), r0, cf))
+            if case["samples"] is None:
+                # the local sample-list invariant (premise of sample_lists_from_local) on the real arrays
+                imap = [NULL] * len(desc["nodes"])
+                for k, u in enumerate(ts_samples(desc)):
+                    imap[u] = k
+                terms.append("sample_lists_local_b (default_fuel %s) %s %s %s" % (tr, tr, cz(len(desc["nodes"])), clist(imap)))
             if "err" not in d and isinstance(d.get("counts"), list):
                 # Variant.counts() against its model (reproduces the duplicate-allele finding too)
                 obs_counts = "[" + "; ".join("(%s, %s)" % ("None" if k is None else "Some %s" % cbytes_of(k), cz(c))
@@ -704,6 +739,9 @@ class Decode(Family):
                 terms.append("res_eqb zll_eqb (%s) (Err %s)" % (mm, cz(obs["matrix"]["code"])))
             else:
                 terms.append("false (* genotype_matrix raised %s *)" % obs["matrix"]["exc"])
+        if "copy_decode_code" in obs:
+            terms.append("res_eqb result_eqb (decode_copy (mkCopy [] [] [] false) (mkSite [] [])) (Err %s)"
+                         % cz(obs["copy_decode_code"] if obs["copy_decode_code"] is not None else 0))
         body = " && ".join("(%s)" % t for t in terms) if terms else "true"
         return "match %s with Ok v => %s | _ => false end" % (vinit, body)
 
